@@ -2535,7 +2535,18 @@ impl<'a> Model<'a> {
                                 .get_style_without_quote_prefix(new_style_index_spill)?;
                         }
 
-                        self.set_cell_with_string(sheet, r, c, "", new_style_index_spill)?;
+                        // A spill cell of the anchor (not a plain string): a formula
+                        // that reads it before the anchor has been evaluated then
+                        // evaluates the anchor first instead of seeing the placeholder
+                        self.workbook.worksheet_mut(sheet)?.update_cell(
+                            r,
+                            c,
+                            Cell::SpillCell {
+                                s: new_style_index_spill,
+                                a: (row, column),
+                                v: SpillValue::Text(String::new()),
+                            },
+                        )?;
                     }
                 }
                 return Ok(());
